@@ -7,6 +7,7 @@ import (
 	"github.com/ChrisTrenkamp/xsel/grammar/lexer"
 	"github.com/ChrisTrenkamp/xsel/grammar/parser"
 	"github.com/ChrisTrenkamp/xsel/grammar/parser/bsr"
+	"github.com/ChrisTrenkamp/xsel/grammar/token"
 )
 
 type Grammar struct {
@@ -33,9 +34,41 @@ type errPos struct {
 	line, col int
 }
 
+// Token classes of the lexer; every other token type is a fixed spelling.
+var tokenClasses = map[string]bool{
+	"ncname":            true,
+	"digits":            true,
+	"singlequote":       true,
+	"doublequote":       true,
+	"variableReference": true,
+}
+
+// newLexer runs the generated lexer.  Its DFA also accepts misspellings of the
+// keywords that contain a '-' (for example "ancestor.or-self" or
+// "preceding_sibling") as the keyword itself, so "preceding_sibling::a" used to
+// be built as some axis instead of being rejected.  Such a token is an ordinary
+// name.
+func newLexer(xpath string) *lexer.Lexer {
+	lex := lexer.New([]rune(xpath))
+
+	for i, t := range lex.Tokens {
+		id := t.Type().ID()
+
+		if id == "" || id[0] < 'a' || id[0] > 'z' || tokenClasses[id] {
+			continue
+		}
+
+		if t.LiteralString() != id {
+			lex.Tokens[i] = token.New(token.IDToType["ncname"], t.Lext(), t.Rext(), t.GetInput())
+		}
+	}
+
+	return lex
+}
+
 // Creates an XPath query.
 func Build(xpath string) (Grammar, error) {
-	lex := lexer.New([]rune(xpath))
+	lex := newLexer(xpath)
 	parse, err := parser.Parse(lex)
 
 	if len(err) > 0 {
